@@ -18,7 +18,7 @@ state, is the known finding).  Python builds, runs, converts and compares."""
 import json
 import os
 
-from lib.common import InfraError, findings_for, log, sh, sha, tlc
+from lib.common import NCPU, InfraError, findings_for, log, parallel_map, sh, sha, tlc
 from props.nvmload_common import PROBE, constants, hook_present, ndjson, run_trace, split_trace, workers
 
 BIG = 1 << 32
@@ -130,16 +130,29 @@ def loader_bounds(ctx, quick=None):
                                  cls="section-wrap" if name == "section" else "strlen-wrap"))
     wit = _witness_cases()
     work = ctx.dir("c13loader")
-    casefile = os.path.join(work, "cases.ndjson")
-    with open(casefile, "w") as f:
-        for c in wit + cexcases + cases:
-            f.write(json.dumps(dict(id=c["id"], bytes=c["bytes"], fixcrc=bool(c.get("fixcrc")))) + "\n")
-    trace = os.path.join(work, "hostile.trace")
     hooked = hook_present(tree)
-    p = sh([probe, "hostile", casefile, work, trace if hooked else "-"], env=ctx.env(), timeout=1800)
-    res = {x["id"]: x for x in ndjson(p.stdout) if x.get("k") == "hostile"}
-    if len(res) != len(wit) + len(cexcases) + len(cases):
-        raise InfraError("hostile probe answered %d of %d cases\n%s" % (len(res), len(wit) + len(cexcases) + len(cases), p.stderr[-2000:]))
+    allcases = wit + cexcases + cases
+    nchunks = max(1, min(NCPU, len(allcases) // 100))
+    trace = os.path.join(work, "hostile.trace")
+
+    def run_chunk(k):
+        d = os.path.join(work, "chunk%d" % k)
+        os.makedirs(d, exist_ok=True)
+        cf = os.path.join(d, "cases.ndjson")
+        with open(cf, "w") as f:
+            for c in allcases[k::nchunks]:
+                f.write(json.dumps(dict(id=c["id"], bytes=c["bytes"], fixcrc=bool(c.get("fixcrc")))) + "\n")
+        return sh([probe, "hostile", cf, d, os.path.join(d, "trace") if hooked else "-"], env=ctx.env(), timeout=1800)
+    outs = parallel_map(run_chunk, range(nchunks))
+    res = {}
+    with open(trace, "w") as tf:
+        for k, p in enumerate(outs):
+            res.update({x["id"]: x for x in ndjson(p.stdout) if x.get("k") == "hostile"})
+            tp = os.path.join(work, "chunk%d" % k, "trace")
+            if os.path.exists(tp):
+                tf.write(open(tp).read())
+    if len(res) != len(allcases):
+        raise InfraError("hostile probe answered %d of %d cases\n%s" % (len(res), len(allcases), outs[0].stderr[-2000:]))
 
     # ---- 3. trace validation: which loads does the repaired spec explain, which only the as-written one
     explained_safe, explained_asw, unexplained = set(), set(), {}
